@@ -45,6 +45,87 @@ type Facts struct {
 
 var fset = token.NewFileSet()
 
+// functions of the runtime package (runtime/*.go), by name: helpers the generated closures may call
+var runtimeFuncs = map[string]*ast.FuncDecl{}
+
+var valueTypes = map[string]bool{"int": true, "int8": true, "int16": true, "int32": true, "int64": true, "uint": true,
+	"uint8": true, "uint16": true, "uint32": true, "uint64": true, "uintptr": true, "bool": true, "error": true, "float32": true,
+	"float64": true, "byte": true, "rune": true}
+
+// helperReads: calling runtime.<name> with a piece of the input buffer as argument number argIdx can neither
+// change the input nor make the result share memory with it: the parameter is never written through, and every
+// result is of a value type (or a string built by a `string(...)` conversion, which copies). Storing the slice
+// somewhere for later is excluded separately: the runtime package has no package-level variables (runtimeState).
+func helperReads(name string, argIdx int) bool {
+	fd := runtimeFuncs[name]
+	if fd == nil || fd.Body == nil || fd.Recv != nil {
+		return false
+	}
+	var params []string
+	for _, f := range fd.Type.Params.List {
+		if len(f.Names) == 0 {
+			params = append(params, "_")
+		}
+		for _, n := range f.Names {
+			params = append(params, n.Name)
+		}
+	}
+	if argIdx >= len(params) {
+		return false
+	}
+	if len(writesIn(fd.Body, params[argIdx])) > 0 {
+		return false
+	}
+	stringResult := false
+	if fd.Type.Results != nil {
+		for _, r := range fd.Type.Results.List {
+			id, ok := r.Type.(*ast.Ident)
+			if !ok {
+				return false
+			}
+			if id.Name == "string" {
+				stringResult = true
+			} else if !valueTypes[id.Name] {
+				return false
+			}
+		}
+	}
+	ok := true
+	ast.Inspect(fd.Body, func(n ast.Node) bool {
+		switch v := n.(type) {
+		case *ast.FuncLit:
+			ok = false // keep it simple: no closures in such helpers
+		case *ast.GoStmt, *ast.DeferStmt:
+			ok = false
+		case *ast.ReturnStmt:
+			if stringResult {
+				for _, e := range v.Results {
+					if bl, isLit := e.(*ast.BasicLit); isLit && bl.Kind == token.STRING {
+						continue
+					}
+					call, isCall := e.(*ast.CallExpr)
+					if !isCall {
+						if id, isId := e.(*ast.Ident); isId && (id.Name == "nil" || valueTypes[id.Name]) {
+							continue
+						}
+						// other results of a (string, error)-style function are value typed; a bare identifier
+						// could be a string built elsewhere: not accepted
+						if _, isId := e.(*ast.Ident); isId {
+							ok = false
+						}
+						continue
+					}
+					if id, isId := call.Fun.(*ast.Ident); !isId || id.Name != "string" {
+						ok = false
+					}
+				}
+			}
+		}
+		return ok
+	})
+	return ok
+}
+
 func show(n ast.Node) string {
 	var b bytes.Buffer
 	_ = printer.Fprint(&b, fset, n)
@@ -350,6 +431,8 @@ func inputFlows(body ast.Node, kinds map[string]int, other *[]string, where stri
 						kind = "fixed-read"
 					case (fn == "bytes.Clone" || fn == "slices.Clone") && argIdx == 0:
 						kind = "append-copy" // documented to return a copy
+					case strings.HasPrefix(fn, "runtime.") && argIdx >= 0 && helperReads(strings.TrimPrefix(fn, "runtime."), argIdx):
+						kind = "helper-read"
 					}
 				}
 			}
@@ -499,10 +582,25 @@ func runtimeState(f *ast.File, base string) (vars []string, names map[string]boo
 
 func main() {
 	facts := Facts{ReadFuncKinds: map[string]int{}, InputFlowKinds: map[string]int{}, MarshalBufRoots: map[string]int{}}
+	parsed := map[string]*ast.File{}
 	for _, path := range os.Args[1:] {
 		f, err := parser.ParseFile(fset, path, nil, 0)
 		if err != nil {
 			facts.UnparsableOrErrors = append(facts.UnparsableOrErrors, err.Error())
+			continue
+		}
+		parsed[path] = f
+		if !strings.HasSuffix(path, ".pulsar.go") {
+			for _, d := range f.Decls {
+				if fd, ok := d.(*ast.FuncDecl); ok && fd.Recv == nil {
+					runtimeFuncs[fd.Name.Name] = fd
+				}
+			}
+		}
+	}
+	for _, path := range os.Args[1:] {
+		f := parsed[path]
+		if f == nil {
 			continue
 		}
 		base := path
